@@ -261,7 +261,8 @@ pub fn run_streams(args: &[String]) {
         if line.trim().is_empty() { continue; }
         let c: Value = serde_json::from_str(line).unwrap();
         let mut f = template.clone();
-        f["proof_parameters"]["stark"]["fri"]["fri_step_list"] = json!([0, 4]);
+        let ninner = c["ninner"].as_u64().unwrap_or(1) as usize;
+        f["proof_parameters"]["stark"]["fri"]["fri_step_list"] = if ninner == 1 { json!([0, 4]) } else { let mut v = vec![0u64]; v.extend(std::iter::repeat(1).take(ninner)); json!(v) };
         let mut pos = 0u64;
         let lines: Vec<String> = c["stream"].as_array().unwrap().iter().map(|t| render(t, &mut pos)).collect();
         f["annotations"] = json!(lines);
